@@ -152,3 +152,86 @@ def _mutable_init(node: ast.AST) -> bool:
         d = dotted(node.func) or ""
         return d.split(".")[-1] in ("dict", "list", "set", "defaultdict", "OrderedDict", "WeakSet", "WeakValueDictionary", "deque", "Counter")
     return False
+
+
+# ---------------------------------------------------------------------------------------------------------------
+# memoised functions: process-lifetime state by another name
+CACHE_DECOS = {"lru_cache", "cache", "cached_property", "functools.lru_cache", "functools.cache", "functools.cached_property"}
+
+_INV: Dict[int, Dict[str, GlobalVar]] = {}
+
+MEMO_REVIEWED: Dict[str, str] = {
+    "vtlengine.DataTypes._time_checking._check_time_period_cached": "pure function of its string argument returning a str (immutable)",
+    "vtlengine.duckdb_transpiler.sql._read_full_sql": "reads the SQL library files shipped with the package (constant for the process) and returns a str",
+    "vtlengine.duckdb_transpiler.sql._macro_graph": "parses that constant text into a _MacroGraph that callers only read (dependency closure lookups); no caller mutates it",
+    "vtlengine.duckdb_transpiler.Transpiler.operators._compiled": "re.compile of its argument: a pure function; compiled patterns are immutable",
+}
+
+
+def memo_findings(P: Program, prefixes: Tuple[str, ...] = ("vtlengine",)) -> List[Tuple[FuncInfo, str, int]]:
+    """(function, why it is unsafe, line) for every memoised function that is not in the reviewed table and whose cached
+    result is shared mutable state or depends on more than its arguments; pure/immutable ones are accepted silently."""
+    out: List[Tuple[FuncInfo, str, int]] = []
+    for f in P.iter_functions():
+        if not f.module.name.startswith(prefixes):
+            continue
+        decos = [d for d in f.decorators if d in CACHE_DECOS or d.split(".")[-1] in CACHE_DECOS]
+        if not decos or f.qualname in MEMO_REVIEWED:
+            continue
+        why = None
+        line = f.node.lineno
+        for r in walk_no_nested(f.node):
+            if isinstance(r, ast.Return) and r.value is not None:
+                v = r.value
+                if isinstance(v, ast.Name):
+                    ds = [n.value for n in walk_no_nested(f.node) if isinstance(n, (ast.Assign, ast.AnnAssign)) and n.value is not None
+                          and any(isinstance(t, ast.Name) and t.id == v.id for t in (n.targets if isinstance(n, ast.Assign) else [n.target]))]
+                    v = ds[-1] if ds else v
+                if isinstance(v, (ast.Set, ast.List, ast.Dict, ast.SetComp, ast.ListComp, ast.DictComp)) or \
+                        (isinstance(v, ast.Call) and isinstance(v.func, ast.Attribute) and v.func.attr in ("intersection", "union", "difference", "copy", "deepcopy")) or \
+                        (isinstance(v, ast.Call) and isinstance(v.func, ast.Name) and v.func.id in ("set", "list", "dict", "defaultdict")):
+                    why, line = f"returns a mutable container (`{src(r.value)[:50]}`) that every caller shares", r.lineno
+                elif isinstance(v, ast.Call):
+                    q = P.resolve_expr(f.module, v.func)
+                    if (q in P.classes and not q.startswith("vtlengine.Exceptions")) or (isinstance(v.func, ast.Attribute) and v.func.attr.startswith("visit")):
+                        why, line = f"returns an object built per call (`{src(r.value)[:50]}`) that callers go on to modify; a later caller gets the modified object", r.lineno
+        reads_env = any(isinstance(c, ast.Call) and src(c.func) in ("os.getenv", "os.environ.get") or (isinstance(c, ast.Subscript) and src(c.value) == "os.environ") for c in ast.walk(f.node))
+        if why is None and reads_env:
+            why = "reads the process environment: the first answer is frozen for the life of the process"
+        if why is None:
+            # depends (through in-repo callees, depth <= 3) on a process-global that something writes: the cache key omits it
+            inv = _INV.get(id(P))
+            if inv is None:
+                inv = _INV.setdefault(id(P), inventory(P))
+            readers: Dict[str, str] = {}
+            for q, gv in inv.items():
+                if q == "vtlengine.Exceptions.dataset_output":
+                    continue  # only decorates error messages
+                if gv.writers or gv.mutators:
+                    for r_ in gv.readers:
+                        readers[r_] = q
+            seen: Set[str] = set()
+            frontier = [(f, 0)]
+            while frontier and why is None:
+                g_, d_ = frontier.pop(0)
+                if g_.qualname in seen:
+                    continue
+                seen.add(g_.qualname)
+                if g_.qualname in readers:
+                    why = (f"its result depends on the process-global `{readers[g_.qualname]}` (read in {g_.name}), which is not part of the cache key: after the global changes, "
+                           f"calls with the same arguments keep returning the result computed under the old value")
+                    break
+                if d_ < 3:
+                    for c in walk_no_nested(g_.node):
+                        if isinstance(c, ast.Call):
+                            targets = list(P.resolve_call(g_, c)[:4])
+                            if not targets and isinstance(c.func, ast.Attribute):
+                                # method on an object of unknown class: every in-repo method of that name (over-approximation)
+                                targets = [x.qualname for x in P.iter_functions() if x.name == c.func.attr and x.cls is not None][:6]
+                            for tq in targets:
+                                h = P.functions.get(tq)
+                                if h is not None:
+                                    frontier.append((h, d_ + 1))
+        if why is not None:
+            out.append((f, why, line))
+    return out
